@@ -33,6 +33,7 @@ CUTOFFS = {
     ("rsa_util:CheckLowHammingWeight", "minv >= threshold_cutoff"): "documented give-up after `cutoff` steps when no promising partial factorisation was seen",
     ("rsa_util:CheckLowHammingWeight", "rem0 < 0"): "pruning: candidates are tried in increasing order of p0*q0; a negative remainder rules out the rest",
     ("rsa_util:CheckLowHammingWeight", "rem0 > 0"): "pruning: (for-else) even the largest candidate leaves a positive remainder -> branch dead",
+    ("rsa_single_checks:CheckBitPatterns.Check", "pattern_size > max_pattern_size"): "patterns longer than an eighth of the modulus are beyond the lattice's reach (bound checked by R-C05-CUT)",
     ("rsa_single_checks:CheckPermutedBitPatterns.Check", "d.bit_length() > max_dsize"): "denominators grow with psize (range ascending): larger ones exceed the size the lattice can find",
 }
 SUCCESS_NAMES = ("factors", "result")
@@ -122,10 +123,18 @@ def rule_fermat(ctx):
   ok = False
   detail = ""
   if init is not None and chk is not None:
-    stored = any(norm(s_) == "self._max_steps = max_steps" for s_ in init.node.body)
-    calls = [x for x in ast.walk(chk.node) if isinstance(x, ast.Call) and ast.unparse(x.func).endswith("FermatFactor")]
-    passed = bool(calls) and all(len(x.args) >= 2 and ast.unparse(x.args[1]) == "self._max_steps" for x in calls)
-    d = init.default_of("max_steps")
+    # values, not text: some attribute holds the constructor parameter unchanged, and the same attribute (read directly or through a local) is FermatFactor's bound
+    pname = [q for q in init.params() if q != "self"]
+    wi = sym.Walker(repo, init)
+    wi.run()
+    held = {e.data["attr"] for e in wi.events if e.kind == "setattr" and pname and isinstance(e.data["value"], Poly) and e.data["value"] == P("param", pname[0])}
+    stored = bool(held)
+    wc = sym.Walker(repo, chk)
+    wc.run()
+    fcalls = [e for e in wc.events if e.kind == "call" and e.data["name"] == "repo:rsa_util:FermatFactor"]
+    passed = bool(fcalls) and all(len(e.data["args"]) >= 2 and isinstance(e.data["args"][1], Poly) and e.data["args"][1].as_atom() is not None and e.data["args"][1].as_atom().kind == "attr"
+                                  and as_poly(e.data["args"][1].as_atom().args[0]) == P("param", "self") and e.data["args"][1].as_atom().args[1] in held for e in fcalls)
+    d = init.default_of(pname[0]) if pname else None
     dv = fold.try_fold(d) if d is not None else None
     ok = stored and passed and isinstance(dv, int) and dv >= 100000
     detail = "bound flows unmodified from the constructor (default %r)" % dv if ok else "stored=%s passed=%s default=%r (documented default 100000)" % (stored, passed, dv)
@@ -305,6 +314,34 @@ def rule_exhaust(ctx, funcs=None, R="R-C04-EXHAUST"):
     for node in ast.walk(fn):
       if isinstance(node, (ast.FunctionDef, ast.Lambda)) and node is not fn:
         continue
+      if isinstance(node, ast.Continue):
+        # a candidate that is skipped before it has been tested is a candidate never tried
+        loops = []
+        x = node
+        while id(x) in par:
+          x = par[id(x)]
+          if isinstance(x, (ast.For, ast.While)):
+            loops.append(x)
+        if not loops:
+          continue
+        later_test = False
+        blk_loop = loops[0].body
+        seen_me = False
+        for st in blk_loop:
+          if any(n_ is node for n_ in ast.walk(st)):
+            seen_me = True
+            continue
+          if seen_me and any(is_success_test(t_) or is_success_stmt(t_) for t_ in ast.walk(st) if isinstance(t_, (ast.stmt, ast.expr))):
+            later_test = True
+        if not later_test:
+          continue
+        n_sites += 1
+        conj = guard_conjuncts(node, par, loops[0])
+        if any((f.where, t_) in CUTOFFS for c_ in conj for t_ in canon_texts(c_)):
+          continue
+        g = enclosing_guard(node, par, loops[0])
+        probs.append("`continue` under `%s` skips a candidate before it is tested and is not a documented cut-off" % (norm(g) if g is not None else "no condition"))
+        continue
       if isinstance(node, (ast.Return, ast.Break)):
         # enclosing loops (within this function)
         loops = []
@@ -442,10 +479,20 @@ def rule_lehman(ctx):
   if not rets:
     probs.append("no factor-producing return")
   for e in rets:
-    env = e.state.env
-    dd, a, b, g = [as_poly(env.get(x)) if env.get(x) is not None else None for x in ("d", "a", "b", "g")]
-    if dd is None or not (dd - d).is_zero():
-      probs.append("d is %r, expected 4*u*v*n with (u, v) the convergent" % (dd,))
+    # read a, b, g off the returned value [g, n // g] (temporaries and their names do not matter): g = gcd(a + b, n), b = isqrt(a*a - d)
+    g = as_poly(e.data["value"].items[0]) if not isinstance(e.data["value"].items[0], (Seq, tuple)) else None
+    a = b = None
+    ga = g.as_atom() if g is not None else None
+    if ga is not None and ga.kind == "gcd" and len(ga.args) == 2:
+      S = [as_poly(x) for x in ga.args if as_poly(x) != n]
+      if len(S) == 1:
+        for t_ in S[0].atoms():
+          if t_.kind == "isqrt":
+            A_ = S[0] - Poly.atom(t_)
+            if (as_poly(t_.args[0]) - (A_ * A_ - d)).is_zero():
+              a, b = A_, Poly.atom(t_)
+    if a is None:
+      probs.append("the returned factor is not gcd(a + isqrt(a*a - d), n) with d = 4*u*v*n for the convergent (u, v): %s" % repr(g)[:100])
       continue
     isq = sym.mk("isqrt", d)
     if a is None or not ((a - isq).is_zero() or (a - isq - 1).is_zero()):
